@@ -78,6 +78,14 @@ StepRF(e) ==
                \cup (IF \E i \in 1..n : IsNaN(e.rf[i]) THEN {"C03.NaN"} ELSE {})
     IN  Report(e, bad) /\ UNCHANGED h
 
+\* recovery interpolator of a finished run (C17): reproduces recovery at the simulated times (<= 2 ulp: the last node is
+\* reached through slope * width), is exactly 0 before the first time and exactly the final recovery after the last
+InterpNodeUlps == 2
+StepInterp(e) ==
+    Report(e, (IF e.node_ulps > InterpNodeUlps THEN {"C17.InterpAtNodes"} ELSE {})
+              \cup (IF ~e.zero_before THEN {"C17.InterpZeroBefore"} ELSE {})
+              \cup (IF e.after_ulps > 0 THEN {"C17.InterpLastAfter"} ELSE {})) /\ UNCHANGED h
+
 \* refinement ladder of one configuration: the first-order error shrinks from rung to rung (C03 gap, C02 errors);
 \* errs: integers = error * 10^8 (capped), one per rung, coarse to fine
 ShrinkNum == 7
@@ -97,6 +105,7 @@ TNext == /\ l <= Len(Trace)
                   [] e.ev = "RF"    -> StepRF(e)
                   [] e.ev = "Shift" -> StepShift(e)
                   [] e.ev = "Ladder" -> StepLadder(e)
+                  [] e.ev = "Interp" -> StepInterp(e)
          /\ l' = l + 1
 
 TraceSpec == TInit /\ [][TNext]_tv
